@@ -136,7 +136,7 @@ def check_recorder(model, rep):
 
 def check(model, rep):
     from checks.solver_common import absorb_arith, TIME_ARITH, EULER_ARITH, KIN_ARITH, TORQUE_ARITH
-    absorb_arith(model, rep, 'C01.dep.arith', KIN_ARITH)
+    absorb_arith(model, rep, 'C01.dep.arith', KIN_ARITH, solver_log=True)
     rep.explain('C01: Solver.run is inlined into an event structure over an abstract element array E[0..n-1] (sa.solver_ir); '
                 'for every instant context (fresh start and every branch combination of the stepping loop) the loops writing '
                 'position/speed/acceleration must have the canonical term E[i+1].ratio * E[i+1].X, cover exactly E[0..n-2] '
